@@ -34,6 +34,7 @@ import ODataVerif.Spec.RelElab
 import ODataVerif.Model.OrmRel
 import ODataVerif.Spec.OrmRelSem
 import ODataVerif.Spec.NumFn
+import ODataVerif.Spec.DateSem
 open OQ OQ.Wire
 
 def encTok : Tok → String
@@ -209,6 +210,20 @@ def encOrmOutcome (o : Outcome OTree) : String :=
   | .foreign "unmodelled" => "unmodelled"
   | o => encOutcome (fun t => "P " ++ encOParams t ++ " T " ++ encOTree t.skeleton) o
 
+def decCmpK (cmp : String) : Option Spec.CmpK :=
+  match cmp with | "eq" => some .eq | "ne" => some .ne | "lt" => some .lt | "le" => some .le | "gt" => some .gt | "ge" => some .ge | _ => none
+/-- a date cell: `n` = NULL, else `YYYY-MM-DD`; outer none = malformed -/
+def decDateCell (c : String) : Option (Option Spec.DateV) :=
+  if c == "n" then some none else (Spec.DateV.ofIso c.toList).map some
+/-- a clock cell: `n` or `h:m:s` in decimal -/
+def decClockCell (c : String) : Option (Option Spec.ClockV) :=
+  if c == "n" then some none
+  else match (c.splitOn ":").map String.toNat? with
+       | [some h, some m, some s] => some (some ⟨h, m, s⟩)
+       | _ => none
+def perCell {α} (cells : String) (dec : String → Option α) (f : α → Spec.V3) : String :=
+  " ".intercalate ((cells.splitOn ",").map (fun c => match dec c with | some v => encV3 (f v) | none => "bad-cell"))
+
 def handle (args : List String) : String :=
   match args with
   | ["ping"] => "pong"
@@ -333,6 +348,23 @@ def handle (args : List String) : String :=
              else match c.toInt? with
                   | some q => encV3 (Spec.numFnHolds f k nv (some q))
                   | none => "bad-cell"))
+       | _, _, _ => "bad-arg")
+  | ["datecmp", cmp, lit, cells] =>
+      -- Spec.DateSem: `col cmp lit` per cell
+      (match decCmpK cmp, Spec.DateV.ofIso lit.toList with
+       | some k, some l => perCell cells decDateCell (Spec.dateHolds k l)
+       | _, _ => "bad-arg")
+  | ["datein", lits, cells] =>
+      (match (lits.splitOn ";").mapM (fun l => Spec.DateV.ofIso l.toList) with
+       | some ls => perCell cells decDateCell (Spec.dateIn ls)
+       | none => "bad-arg")
+  | ["datepart", part, cmp, n, cells] =>
+      (match (match part with | "year" => some Spec.DatePart.year | "month" => some .month | "day" => some .day | _ => none), decCmpK cmp, n.toInt? with
+       | some p, some k, some nv => perCell cells decDateCell (Spec.datePartHolds p k nv)
+       | _, _, _ => "bad-arg")
+  | ["clockpart", part, cmp, n, cells] =>
+      (match (match part with | "hour" => some Spec.ClockPart.hour | "minute" => some .minute | "second" => some .second | _ => none), decCmpK cmp, n.toInt? with
+       | some p, some k, some nv => perCell cells decClockCell (Spec.clockPartHolds p k nv)
        | _, _, _ => "bad-arg")
   | ["releval", tbl, w, dbs] =>
       -- RelSem on every row of the root table: T / F / U per row (in table order); "noelab" / "noschema"
